@@ -372,10 +372,10 @@ LAYOUTS_844 = [(1, 1, 1), (2, 1, 1), (2, 2, 1), (4, 2, 2), (8, 4, 4), (1, 4, 2)]
 
 
 def step_line(cfg):
-    return "%d %d %d %d %d %d %d %d %d %d %s %d %s %d %d %s %s %s %s %d %d\n" % (
+    return "%d %d %d %d %d %d %d %d %d %d %s %d %s %d %d %s %s %s %s %d %d %s\n" % (
         cfg["N"][0], cfg["N"][1], cfg["N"][2], cfg["lay"][0], cfg["lay"][1], cfg["lay"][2], cfg["per"][0], cfg["per"][1], cfg["per"][2],
         cfg["bk"], hx(cfg["gamma"]), cfg["nsteps"], hx(cfg["cfl"]), cfg["init"], cfg["seed"], hx(cfg["mach"]),
-        hx(cfg["h"][0]), hx(cfg["h"][1]), hx(cfg["h"][2]), cfg.get("dump", 0), cfg.get("order", 0))
+        hx(cfg["h"][0]), hx(cfg["h"][1]), hx(cfg["h"][2]), cfg.get("dump", 0), cfg.get("order", 0), hx(cfg.get("maxv", 1e99)))
 
 
 def step_run(d, cfgs):
@@ -436,6 +436,11 @@ def gen_step_groups(rng, quick):
         for per, bk in (((1, 1, 1), 2), ((0, 0, 0), 2), ((1, 0, 1), 2)):
             base.append(dict(N=(8, 4, 4), per=per, bk=bk, init=init, gamma=rng.choice([5 / 3, 1.4, 2.0, 1.1]), nsteps=3, cfl=rng.choice([0.1, 0.2, 0.3]),
                              seed=rng.below(1 << 30), mach=rng.choice([0.3, 0.5, 1.0] if all(per) else [0.2, 0.4]), h=rng.choice(hs)))
+    # velocity limiter on (Hydro:maximum velocity below the speeds of many cells): the cap acts on the primitive variables only, what the
+    # cells hold is still exchanged pairwise
+    for init in (1, 3):
+        m = rng.choice([0.5, 1.0])
+        base.append(dict(N=(8, 4, 4), per=(1, 1, 1), bk=2, init=init, gamma=rng.choice([5 / 3, 1.4]), nsteps=3, cfl=0.2, seed=rng.below(1 << 30), mach=m, h=rng.choice(hs), maxv=0.5 * m))
     # other global sizes / layouts incl. one-cell-wide subgrids and a single cell per axis
     extra = [((6, 6, 2), [(1, 1, 1), (3, 2, 1), (6, 3, 2), (2, 6, 1)]), ((4, 3, 5), [(1, 1, 1), (2, 3, 1), (4, 1, 5)]), ((2, 1, 1), [(1, 1, 1), (2, 1, 1)]),
              ((9, 3, 3), [(1, 1, 1), (3, 3, 1), (9, 1, 3)])]
